@@ -64,6 +64,10 @@ FOCUS = {
     "counts_atomic_on_tree": ["refcount-storm"],
     "closures_own_on_tree": ["into-func"],
     "slots_in_frame_on_tree": ["frame-slots"],
+    "globals_upgrades_rechecked_on_tree": ["compile-race"],
+    "globals_inserts_exclusive_on_tree": ["compile-race"],
+    "globals_entries_frozen_on_tree": ["multi-runtime"],
+    "names_resolved_per_runtime_on_tree": ["multi-runtime"],
 }
 
 
@@ -79,9 +83,11 @@ def share_focus(ctx):
             if name.endswith("." + thm):
                 focus += [c for c in classes if c not in focus]
     if "extract:c12sharing" in ctx.broken and not focus:
-        focus = [c for t, cs in FOCUS.items() for c in cs if t != "slots_in_frame_on_tree"]
+        focus = [c for t, cs in FOCUS.items() for c in cs if t in ("lock_discipline_on_tree", "counts_atomic_on_tree", "closures_own_on_tree")]
     if "extract:c12frame" in ctx.broken:
         focus = (focus or []) + ["frame-slots"]
+    if "extract:c12globals" in ctx.broken:
+        focus = (focus or []) + ["compile-race", "multi-runtime"]
     return focus or None
 
 
@@ -175,7 +181,8 @@ def tsan(ctx):
 def run(ctx):
     ctx.extract(["c12bounds", "c12sharing", "c12instr", "c12globals", "c12frame"])
     ctx.prove(PROPS, extra_modules=["RotoV.Lemmas.Conc", "RotoV.Model.Conc", "RotoV.Lemmas.ConcShare", "RotoV.Model.ConcShare",
-                                     "RotoV.Lemmas.ConcExec", "RotoV.Model.ConcExec", "RotoV.Model.ConcInstr", "RotoV.Model.ConcFrame", "RotoV.Lemmas.ConcFrame"])
+                                     "RotoV.Lemmas.ConcExec", "RotoV.Model.ConcExec", "RotoV.Model.ConcInstr", "RotoV.Model.ConcFrame", "RotoV.Lemmas.ConcFrame",
+                                     "RotoV.Model.ConcIntern", "RotoV.Lemmas.ConcIntern"])
     if ctx.build_harness("c12"):
         ctx.harness("c12", harness_args(ctx, ctx.seed, ctx.tier), timeout=3000)
         if ctx.tier == "thorough":
@@ -199,7 +206,11 @@ def run(ctx):
         "translator target c12sharing: shapes are decided by type NAME (Arc, Rc, Mutex, RwLock, Cell …; renames/aliases of these names are an extraction failure), structs of the crate are inlined, "
         "enums and foreign types are opaque (.ext); a RawList method 'writes' iff its body contains a write primitive, a call through drop_fn/clone_fn, a field assignment or a call of a writing method on self",
         "std's Mutex admits one holder, RwLock one writer or many readers, Arc counts are atomic read-modify-writes, Rc counts are plain loads and stores (the machines of Model/ConcShare) — modelled, not verified",
-        "modelled, not verified: data races inside machine code, the global TypeRegistry mutex and the symbol_table interner are exercised by the stress run only "
+        "translator target c12globals (round 4): sections of a function = the code between two occurrences of a lock-shaped static's name; table operations by METHOD NAME (lookup: get / contains_key / entry / iter …; insert: insert / push / "
+        "or_insert_with / extend / set …); entryCells by type NAME across src/ (crate structs / enums inlined by name); nameSources by the identifiers in each arm of the match over ty.description in rust_type_to_roto_type; "
+        "a guard handed to a helper function is outside the scan. The external symbol_table interner is not modelled at source level: its contract (one identifier per text under concurrent interning) is decided by the verified "
+        "checker Intern.consistent on the observations of hook verif_hooks::c12::intern; that a read-locked lookup section and an exclusive insert section are atomic steps is the lock machine (no_foreign_write_while_held, global_insert_section_alone)",
+        "modelled, not verified: data races inside machine code are exercised by the stress run only "
         "(thorough tier repeats the stress cases in a ThreadSanitizer build, which instruments the Rust side but not the JIT-generated code)",
     ]
     return ctx.finish(
@@ -213,7 +224,13 @@ def run(ctx):
              "and a registered constant holding a drop-counting token: no drop while an owner lives, exactly one at the end), into-func (closure of into_func called after every other "
              "owner was dropped on another thread, several arities, with and without context), frame-slots (run FIRST; one script per slot size 8 B … 256 KiB, sizes around the powers of two, "
              "the big value as local / temporary argument / return slot / local live across a recursive call; N threads rendezvous INSIDE the function through a registered function, so all activations are "
-             "live at once in every round, then run free; every result must equal the closed form = the single-threaded result); rustc probes: a Send + !Sync closure, an Rc constant and a Send + !Sync "
+             "live at once in every round, then run free; every result must equal the closed form = the single-threaded result), "
+             "multi-runtime (2-4 runtimes in one process register the same four Rust types under different Roto names — the name of a type in one runtime denotes its neighbour in the next — or under the "
+             "same name in different module scopes, built one after the other or on threads of their own at the same moment; functions and a constant mention every type; under each runtime the well-typed "
+             "scripts of THAT runtime must compile and return the closed form, handles must have the declared Rust signature, scripts returning one registered type as another must be rejected: each runtime "
+             "behaves as alone in a fresh process), compile-race (3-8 barrier-synchronised threads parse + compile + call scripts whose 36-120 identifier texts are new to the process and shared between the "
+             "threads — same script, overlapping name windows, or each thread first builds a runtime registering functions under the same fresh names; 40 rounds; every outcome must equal the same source "
+             "compiled alone on one thread = the closed form); rustc probes: a Send + !Sync closure, an Rc constant and a Send + !Sync "
              "host value Val<T> in a script-level constant must be rejected (if accepted they are run: 4 x 100000 calls, lost updates reported), their Sync controls must build and count exactly",
         search=search,
     )
